@@ -283,7 +283,7 @@ def _c17_vm_sample(d, tier, coq, build, want=300):
 
 CONFIG = {
     "properties_file": "Properties/C17.v",
-    "proof_files": ["Base/Prelude.v", "Proofs/Retry.v"],
+    "proof_files": ["Base/Prelude.v", "Proofs/Retry.v", "Proofs/RetryParse.v"],
     "model_files": ["Base/RetryTypes.v", "Generated/GC17.v", "Model/Retry.v"],
     "extract": "XC17.v",
     "ml_main": "c17_main.ml",
